@@ -732,3 +732,158 @@ Proof.
       discriminate. }
     rewrite Ex in X. injection X as <-. reflexivity.
 Qed.
+
+(** ** sufficient conditions for the domain of the strip theorem: labels and
+    properties without blanks, prefix labels without blanks, non-empty
+    namespaces, instance ids without ['>'] *)
+
+Definition ns_ok (ns : nsdict) : Prop :=
+  Forall (fun np : str * str => fst np <> [] /\ nospace (snd np) = true) ns.
+
+Lemma nospace_app a b : nospace (a ++ b) = nospace a && nospace b.
+Proof. apply forallb_app. Qed.
+
+Lemma nospace_skipn n s : nospace s = true -> nospace (skipn n s) = true.
+Proof.
+  revert s; induction n as [|n IH]; intros s H; [exact H|]. destruct s as [|c s]; [reflexivity|].
+  cbn [nospace forallb] in H. apply andb_true_iff in H. cbn [skipn]. apply IH, H.
+Qed.
+
+Lemma nospace_firstn n s : nospace s = true -> nospace (firstn n s) = true.
+Proof.
+  revert s; induction n as [|n IH]; intros s H; [reflexivity|]. destruct s as [|c s]; [reflexivity|].
+  cbn [nospace forallb] in H. apply andb_true_iff in H. destruct H as [H1 H2].
+  cbn [firstn nospace forallb]. rewrite H1. apply IH, H2.
+Qed.
+
+Lemma replace_nospace a b : forall fuel s,
+  nospace b = true -> nospace s = true -> nospace (replace_all_fuel fuel a b s) = true.
+Proof.
+  induction fuel as [|f IH]; intros s Hb Hs; [exact Hs|].
+  cbn [replace_all_fuel]. destruct s as [|c s']; [reflexivity|].
+  destruct (prefixb a (c :: s')).
+  - destruct a as [|a0 a']; [exact Hs|]. rewrite nospace_app, Hb. apply IH; [exact Hb | apply nospace_skipn, Hs].
+  - cbn [nospace forallb] in Hs |- *. apply andb_true_iff in Hs. destruct Hs as [H1 H2].
+    fold (nospace (replace_all_fuel f a b s')). rewrite H1. apply IH; assumption.
+Qed.
+
+Lemma replace_head a b s :
+  a <> [] -> s <> [] -> prefixb a s = true -> exists r, replace_all a b s = b ++ r.
+Proof.
+  intros Ha Hs Hp. unfold replace_all. destruct s as [|c s']; [congruence|].
+  cbn [replace_all_fuel]. rewrite Hp. destruct a; [congruence|]. eexists; reflexivity.
+Qed.
+
+Lemma best_ns_sound ns u n p : best_ns ns u = Some (n, p) -> In (n, p) ns /\ prefixb n u = true.
+Proof.
+  induction ns as [|[n0 p0] ns IH]; cbn [best_ns]; [discriminate|].
+  destruct (prefixb n0 u) eqn:E; cbn [andb].
+  - destruct (negb (contains (Str "/") (skipn (List.length n0) u)) &&
+              negb (contains (Str "#") (skipn (List.length n0) u))).
+    + intros H; injection H as <- <-. split; [left; reflexivity | exact E].
+    + intros H. destruct (IH H). split; [right|]; assumption.
+  - intros H. destruct (IH H). split; [right|]; assumption.
+Qed.
+
+Lemma tok_ok_app_head b r : tok_ok b = true -> tok_ok (b ++ r) = true.
+Proof. destruct b; [discriminate | intros H; exact H]. Qed.
+
+Lemma prefix_colon_tok_ok p : nospace p = true -> tok_ok (p ++ Str ":") = true.
+Proof.
+  destruct p as [|c p]; [reflexivity|]. cbn [nospace forallb]. intros H. apply andb_true_iff in H. apply H.
+Qed.
+
+Lemma tune_token_tok_ok ns p t :
+  ns_ok ns -> tok_ok p = true -> tune_token ns p = Some t -> tok_ok t = true.
+Proof.
+  intros Hns Hp. unfold tune_token.
+  destruct (prefixb c_STARTING_CHAR_FOR_SHAPE_NAME p).
+  { destruct (prefixize_shape_name ns p); [|discriminate]. intros H; injection H as <-. reflexivity. }
+  destruct (mem_str p [c_IRI_ELEM_TYPE; c_BNODE_ELEM_TYPE; c_NONLITERAL_ELEM_TYPE]).
+  { intros H; injection H as <-. exact Hp. }
+  destruct (negb (contains (Str ":") p)).
+  { destruct (contains (Str "<") p); intros H; injection H as <-; reflexivity. }
+  unfold prefixize_opt. destruct (best_ns ns p) as [[n pf]|] eqn:E.
+  - intros H; injection H as <-. destruct (best_ns_sound _ _ _ _ E) as [Hin Hpre].
+    unfold ns_ok in Hns. rewrite Forall_forall in Hns. destruct (Hns _ Hin) as [Hn Hpf]. cbn [fst snd] in Hn, Hpf.
+    assert (p <> []) by (destruct p; [discriminate | congruence]).
+    unfold py_replace. change [":"%char] with (Str ":"). destruct (replace_head n (pf ++ Str ":") p Hn H Hpre) as [r ->].
+    apply tok_ok_app_head, prefix_colon_tok_ok, Hpf.
+  - intros H; injection H as <-. reflexivity.
+Qed.
+
+Lemma label_ok_intro l : l <> [] -> nospace l = true -> label_ok l = true.
+Proof. destruct l; [congruence | intros _ H; exact H]. Qed.
+
+Lemma label_ok_of_nospace ns name l :
+  ns_ok ns -> nospace name = true -> prefixize_shape_name ns name = Some l -> label_ok l = true.
+Proof.
+  intros Hns Hn. unfold prefixize_shape_name, prefixize_cornered, remove_corners_strict.
+  set (target := slice_from name 1).
+  assert (Ht : nospace target = true) by (apply nospace_skipn, Hn).
+  destruct (prefixb (Str "<") target && suffixb (Str ">") target) eqn:Ec; [|discriminate].
+  apply andb_true_iff in Ec. destruct Ec as [Ec _].
+  assert (Hcand : nospace (slice target 1 (-1)) = true) by (apply nospace_firstn, nospace_skipn, Ht).
+  destruct (best_ns ns (slice target 1 (-1))) as [[n pf]|] eqn:E.
+  - intros H. assert (El : py_replace n (pf ++ Str ":") (slice target 1 (-1)) = l) by congruence. subst l. clear H.
+    destruct (best_ns_sound _ _ _ _ E) as [Hin Hpre].
+    unfold ns_ok in Hns. rewrite Forall_forall in Hns. destruct (Hns _ Hin) as [Hn0 Hpf]. cbn [fst snd] in Hn0, Hpf.
+    assert (Hne : slice target 1 (-1) <> []).
+    { intros Z. rewrite Z in Hpre. destruct n; [congruence | discriminate]. }
+    assert (Hb : nospace (pf ++ Str ":") = true) by (rewrite nospace_app, Hpf; reflexivity).
+    apply label_ok_intro.
+    + unfold py_replace. destruct (replace_head n (pf ++ Str ":") _ Hn0 Hne Hpre) as [r ->]. destruct pf; discriminate.
+    + apply (replace_nospace n (pf ++ Str ":") _ _ Hb Hcand).
+  - intros H. assert (El : target = l) by congruence. subst l. apply label_ok_intro; [|exact Ht].
+    destruct target; [discriminate | congruence].
+Qed.
+
+(** a printed stem is a prefix of an instance id *)
+Lemma stem_ok_of_prefix s i :
+  prefix s i -> forallb stem_char_ok i = true -> stem_ok s = true.
+Proof.
+  intros [r ->] H. unfold stem_ok. rewrite forallb_app in H. apply andb_true_iff in H. apply H.
+Qed.
+
+Theorem decor_domb_sufficient z dc d shapes :
+  ns_ok (z_ns z) ->
+  Forall (fun sh =>
+            nospace (sh_name sh) = true /\
+            Forall (fun s => tok_ok (s_prop s) = true) (sh_stmts sh) /\
+            (d_dmi dc = true -> forall s, shape_stem d (sh_class sh) = Some (Some s) -> stem_ok s = true)) shapes ->
+  decor_domb z dc d shapes = true.
+Proof.
+  intros Hns H. unfold decor_domb. apply forallb_forall. intros sh Hsh. rewrite Forall_forall in H.
+  destruct (H sh Hsh) as (Hn & Hst & Hstem). unfold shape_ok. rewrite !andb_true_iff. repeat split.
+  - destruct (prefixize_shape_name (z_ns z) (sh_name sh)) as [l|] eqn:E; [|reflexivity].
+    apply (label_ok_of_nospace _ _ _ Hns Hn E).
+  - destruct (d_dmi dc); [|reflexivity]. destruct (shape_stem d (sh_class sh)) as [[s|]|] eqn:E; try reflexivity.
+    apply (Hstem eq_refl s eq_refl).
+  - apply forallb_forall. intros s Hs. rewrite Forall_forall in Hst. unfold stmt_ok.
+    destruct (s_inv s); [reflexivity|]. cbn [orb].
+    destruct (tune_token (z_ns z) (s_prop s)) as [t|] eqn:E; [|reflexivity].
+    apply (tune_token_tok_ok _ _ _ Hns (Hst s Hs) E).
+Qed.
+
+(** the stem clause from the data: with well-formed instance ids none of which
+    contains the closing marker's first character *)
+Theorem stem_ok_of_instances c mode g ins d cls s :
+  run_decor_data c true mode g = Some (ins, d) ->
+  well_formed_ids (instances_of ins cls) ->
+  (forall i, In i (instances_of ins cls) -> forallb stem_char_ok i = true) ->
+  shape_stem d cls = Some (Some s) -> stem_ok s = true.
+Proof.
+  intros H W Hi S. destruct (run_decor_data_inv _ _ _ _ _ _ H) as (_ & d0 & C & E & _ & Hd). specialize (Hd eq_refl).
+  assert (Hex : exists i, is_instance ins cls i).
+  { destruct W as [Wn _]. destruct (instances_of ins cls) as [|i l] eqn:El; [congruence|].
+    exists i. apply in_instances_of. rewrite El. left; reflexivity. }
+  pose proof (shape_stem_is_stem ins g mode (r_inverse c) d0 cls E Hex) as S0.
+  assert (S1 : shape_stem d cls = shape_stem d0 cls).
+  { unfold shape_stem in *. destruct (dget d0 cls) as [e|] eqn:G; [|discriminate].
+    destruct (e_min_iri e) as [l|] eqn:M; [|discriminate].
+    subst d. rewrite (complete_keeps C d0 _ e G) by congruence. rewrite M. reflexivity. }
+  rewrite S1, S0 in S. injection S as S.
+  destruct (MinIriProofs.stem_some_prefix_sep _ _ W S) as (CP & _).
+  destruct Hex as [i Hi0]. apply in_instances_of in Hi0.
+  apply (stem_ok_of_prefix s i (CP i Hi0) (Hi i Hi0)).
+Qed.
